@@ -6,6 +6,7 @@ import Spydr.Eblif.Props.C18BlackBox
 import Spydr.Eblif.Props.C18FullParse
 import Spydr.Eblif.Props.C18GenDefs
 import Spydr.Eblif.Props.C18Mirror
+import Spydr.Eblif.Props.C18Full
 #print axioms Spydr.Eblif.lexB_printB
 #print axioms Spydr.Eblif.lexB_continuation
 #print axioms Spydr.Eblif.parse_comment_line
@@ -58,3 +59,8 @@ import Spydr.Eblif.Props.C18Mirror
 #print axioms Spydr.Eblif.pin_mirror
 #print axioms Spydr.Eblif.pin_mirror_elab
 #print axioms Spydr.Eblif.pin_mirror_bits
+#print axioms Spydr.Eblif.eblif_roundtrip_full
+#print axioms Spydr.Eblif.child_block_step
+#print axioms Spydr.Eblif.header_inout
+#print axioms Spydr.Eblif.conn_alias_closed_form
+#print axioms Spydr.Eblif.written_joins_are_net
